@@ -286,13 +286,20 @@ impl Walrus {
             debug_print!("[recovery] file {}", file_path);
 
             let mut block_offset: u64 = 0;
+            // Units that were handed out as blocks but never written (e.g. a writer whose first
+            // entry needed a larger block) read as zeros. They do not end the file: later units
+            // may hold data, and each such unit owns a block id.
+            let mut empty_units: usize = 0;
             while block_offset + DEFAULT_BLOCK_SIZE <= MAX_FILE_SIZE {
-                // heuristic: if first bytes are zero, assume no more blocks
                 let mut probe = [0u8; 8];
                 mmap.read(block_offset as usize, &mut probe);
                 if probe.iter().all(|&b| b == 0) {
-                    break;
+                    empty_units += 1;
+                    block_offset += DEFAULT_BLOCK_SIZE;
+                    continue;
                 }
+                next_block_id += empty_units;
+                empty_units = 0;
 
                 let mut used: u64 = 0;
                 let mut entries_in_block: u64 = 0;
